@@ -17,6 +17,14 @@ TPsym == TP3sym({-1, -2}, {-1, -3})
 TP2 == {[i \in 0 .. 1 |-> [j \in 0 .. 2 |-> IF j < i THEN NoTr ELSE m[i * 3 + j + 1]]] :
           m \in {<<a, b, c, NoTr, d, e>> : a \in {-1, NoTr}, b \in {-1, -2}, c \in {-2, NoTr}, d \in {-1, NoTr}, e \in {-1, -2}}}
 
+(* single matrices for the graph exports: no skip, both skips, only the skip into the exit (more probable than the step
+   it skips - the shape that shows the stale t2), only the skip over state 1 *)
+T_none == {Mat3(-1, -2, -1, NoTr, NoTr, -1)}
+T_both == {Mat3(-2, -1, -1, -1, -3, -1)}
+T_13 == {Mat3(-1, -2, -2, NoTr, -1, -1)}
+T_02 == {Mat3(-1, -1, -2, -3, NoTr, -1)}
+T2_a == {[i \in 0 .. 1 |-> [j \in 0 .. 2 |-> IF j < i THEN NoTr ELSE <<-1, -2, -2, NoTr, -1, -1>>[i * 3 + j + 1]]]}
+T2_b == {[i \in 0 .. 1 |-> [j \in 0 .. 2 |-> IF j < i THEN NoTr ELSE <<-1, -1, NoTr, NoTr, -1, -2>>[i * 3 + j + 1]]]}
 WorstC == -1000
 NoTrC == -255
 SenA == {0, -2}
